@@ -14,7 +14,7 @@ Scope: {p['quantifier']['text']}
 Code involved: {', '.join(p['anchors']['files'])}; mechanisms: {'; '.join(m['name'] for m in p['anchors']['mechanism'])}
 
 WHAT TO PRODUCE
-1. A small change (a few lines, in the library's source under {wt}/ndcube, not in tests) that makes the property false. It must look like a plausible developer mistake or "optimisation" (off-by-one, wrong axis order, stale state, a condition that is subtly too narrow/too wide, two sites that each look fine alone...). It must NOT be exposed by ordinary, everyday use at once: it should need something specific to manifest — an unusual but valid input (e.g. a particular combination of dimensionality / negative index / ragged lengths / axis order / more than two members), a multi-step sequence of operations, or a particular configuration. Variant hint for diversity: you are variant "{variant}" — if "a", prefer an arithmetic/indexing slip; if "b", prefer a state/aliasing/ordering or a condition-coverage slip in a different function than the most obvious one.
+1. A small change (a few lines, in the library's source under {wt}/ndcube, not in tests) that makes the property false. It must look like a plausible developer mistake or "optimisation" (off-by-one, wrong axis order, stale state, a condition that is subtly too narrow/too wide, two sites that each look fine alone...). It must NOT be exposed by ordinary, everyday use at once: it should need something specific to manifest — an unusual but valid input (e.g. a particular combination of dimensionality / negative index / ragged lengths / axis order / more than two members), a multi-step sequence of operations, or a particular configuration. Variant hint for diversity: you are variant "{variant}" — if "a", prefer an arithmetic/indexing slip; if "b", prefer a state/aliasing/ordering or a condition-coverage slip in a different function than the most obvious one; if "c", prefer a slip that only shows in an unusual-but-valid configuration or a second code path named in the property's scope (e.g. dask payloads, scalar masks, unit None, length-1 axes, negative axis numbers, keepdims, reflected operators, the by-values form versus the high-level form, low-level versus high-level WCS arguments, chains of two operations) and that is NOT one of these already-used ideas: wrong axis order in moveaxis, negative-index normalisation, wrong rounding rule, shallow copy instead of deep copy, set ordering.
 2. The existing test-suite must still pass with your change: run
    cd {wt} && PYTHONPATH={wt} /venv/bin/python -m pytest -q -p no:cacheprovider --timeout=900 --continue-on-collection-errors ndcube 2>&1 | tail -5
    and compare with the same command on the unchanged tree (toggle your change with `git diff -- ndcube > /tmp/<your-id>.diff; git apply -R /tmp/<your-id>.diff` and `git apply /tmp/<your-id>.diff`; do NOT use `git stash`: the stash is shared between all worktrees of this repository and other people are working in sibling worktrees): the set of passing tests must not shrink (the run takes under a minute; some tests/collections already fail on the unchanged tree in this environment; that is expected — only regressions matter).
